@@ -911,7 +911,10 @@ def _controls_rest(pctx, rep):
     rep.control("R2:unguarded-add", ("overflow_add_param", "Overflow(Add)") in und, "posctl::overflow_add_param")
     rep.control("R2:guarded-index-ok", not any(f == "index_guarded_ok" for f, m in und), "posctl::index_guarded_ok must stay silent")
     rep.control("R2:unguarded-slice-index", ("index_unguarded", "BoundsCheck") in und, "posctl::index_unguarded")
+    rep.control("R2:guard-on-other-slice", ("index_guard_other_container", "BoundsCheck") in und, "posctl::index_guard_other_container: `i < a.len()` does not bound `b[i]`")
     ui = {b.short for b, i, t, cont, ity, idx, why in P.index_sites(F, bodies) if why is None}
+    rep.control("R2:guard-on-other-vec", "vec_index_guard_other_container" in ui, "posctl::vec_index_guard_other_container: `i < a.len()` does not bound `b[i]`")
+    rep.control("R2:guarded-vec-index-ok", "vec_index_guarded_ok" not in ui, "posctl::vec_index_guarded_ok must stay silent")
     rep.control("R2:unguarded-vec-index", "vec_index_unguarded" in ui, "posctl::vec_index_unguarded")
     ds = {b.short for b, i, t in P.decimal_op_sites(F, bodies)}
     rep.control("R3:decimal-op", "decimal_mul" in ds, "posctl::decimal_mul")
